@@ -16,6 +16,7 @@ import Panoptica.Model.Pipeline
 import Panoptica.Model.Aggregator
 import Panoptica.Model.Table
 import Panoptica.Model.Purity
+import Panoptica.Model.Config
 open Lean Panoptica
 
 abbrev P := Except String
@@ -435,6 +436,10 @@ def handle (j : Json) : P Json := do
   | "pure_run" => pureRun j
   | "result_keys" => do
     pure (strsJ (Pure.resultKeys (← asList asMetric (← fld j "eval_metrics")) (← asList asMetric (← fld j "global_metrics"))))
+  | "cfg_classes" => do
+    pure (Json.arr (Cfg.expectedClasses.map (fun d => Json.mkObj [("name", Json.str d.name), ("params", strsJ d.params),
+      ("repr_keys", strsJ (Cfg.reprKeys d)), ("wellformed", Cfg.WellFormed d),
+      ("manual", Cfg.manualClasses.contains d.name)])).toArray)
   | "tbl" => tblOp j
   | "rsplit" => do
     let c := (← asStr (← fld j "cell")).toList
